@@ -122,7 +122,7 @@ theorem pushNone_bl {b : B} {path dt n md} (hg : GoodH b dt n md) (ha : At path 
   | dictionary p idx vals index =>
     have hsh := hg.shape
     simp only [Shape] at hsh
-    obtain ⟨⟨kdt, vdt, rfl⟩, hint, _, _⟩ := hsh
+    obtain ⟨⟨kdt, vdt, rfl, hsv⟩, hint, _, _⟩ := hsh
     obtain ⟨ip, t, iv, ivals, rfl⟩ := isIntLeaf_form hint
     unfold pushNone
     refine Bl.ctx_self _ hself ?_
